@@ -61,6 +61,8 @@ pub struct Block {
     /// offset of `user` from `base` (>= rz): blocks are deliberately aligned to exactly their requested
     /// alignment and no better, so that code relying on a stronger alignment than it asked for is exposed
     pub pre: usize,
+    /// usable bytes granted beyond the requested size (over-returning allocator mode)
+    pub extra: usize,
     pub live: bool,
 }
 
@@ -85,6 +87,8 @@ pub struct Env {
     pub dealloc_calls: u64,
     pub live_bytes: usize,
     /// refuse the j-th allocation request from now (0 = next)
+    /// grant more than requested (the returned slice is longer than `layout.size()`), as size-class allocators do
+    pub over_return: bool,
     pub refuse_at: Option<u64>,
     /// refuse any request larger than this
     pub refuse_above: Option<usize>,
@@ -111,6 +115,7 @@ impl Env {
             alloc_calls: 0,
             dealloc_calls: 0,
             live_bytes: 0,
+            over_return: false,
             refuse_at: None,
             refuse_above: None,
             refused: Vec::new(),
@@ -165,7 +170,7 @@ pub fn reset() {
                 if b.rz == 0 {
                     std::alloc::dealloc(b.base, Layout::from_size_align_unchecked(b.size, b.align));
                 } else {
-                    std::alloc::dealloc(b.base, Layout::from_size_align_unchecked(b.pre + b.size + b.rz, 2 * b.rz));
+                    std::alloc::dealloc(b.base, Layout::from_size_align_unchecked(b.pre + b.size + b.extra + b.rz, 2 * b.rz));
                 }
             }
         }
@@ -341,7 +346,7 @@ pub fn forgive_from(reg_from: usize, block_from: usize) {
                 bytes += b.size;
                 // keep the memory mapped and un-poisoned: leaked memory is never touched again,
                 // so fill it with the free poison to detect later writes
-                unsafe { std::ptr::write_bytes(b.user, 0xDD, b.size) };
+                unsafe { std::ptr::write_bytes(b.user, 0xDD, b.size + b.extra) };
             }
         }
         e.live_bytes -= bytes;
@@ -434,30 +439,31 @@ unsafe impl Allocator for CheckAlloc {
             }
             with(|e| {
                 e.live_bytes += size;
-                e.blocks.push(Block { base, user: base, size, align, rz: 0, pre: 0, live: true });
+                e.blocks.push(Block { base, user: base, size, align, rz: 0, pre: 0, extra: 0, live: true });
             });
             return Ok(NonNull::slice_from_raw_parts(NonNull::new(base).unwrap(), size));
         }
         let rz = align.max(32);
         // user address = align (mod 2 * align): aligned as requested, never better
         let pre = if rz % (2 * align) == 0 { rz + align } else { rz };
-        let total = pre + size + rz;
+        let extra = if with(|e| e.over_return) { (64 - size % 64) % 64 + 64 } else { 0 };
+        let total = pre + size + extra + rz;
         let base = unsafe { std::alloc::alloc(Layout::from_size_align(total, 2 * rz).unwrap()) };
         if base.is_null() {
             return Err(AllocError);
         }
         unsafe {
             std::ptr::write_bytes(base, CANARY, pre);
-            std::ptr::write_bytes(base.add(pre), POISON_NEW, size);
-            std::ptr::write_bytes(base.add(pre + size), CANARY, rz);
+            std::ptr::write_bytes(base.add(pre), POISON_NEW, size + extra);
+            std::ptr::write_bytes(base.add(pre + size + extra), CANARY, rz);
         }
         let user = unsafe { base.add(pre) };
         debug_assert!(user as usize % align == 0 && user as usize % (2 * align) != 0);
         with(|e| {
             e.live_bytes += size;
-            e.blocks.push(Block { base, user, size, align, rz, pre, live: true });
+            e.blocks.push(Block { base, user, size, align, rz, pre, extra, live: true });
         });
-        Ok(NonNull::slice_from_raw_parts(NonNull::new(user).unwrap(), size))
+        Ok(NonNull::slice_from_raw_parts(NonNull::new(user).unwrap(), size + extra))
     }
 
     unsafe fn deallocate(&self, ptr: NonNull<u8>, layout: Layout) {
@@ -483,7 +489,7 @@ unsafe impl Allocator for CheckAlloc {
                         unsafe { std::alloc::dealloc(b.base, Layout::from_size_align_unchecked(b.size, b.align)) };
                         b.base = std::ptr::null_mut();
                     } else {
-                        unsafe { std::ptr::write_bytes(b.user, POISON_FREE, b.size) };
+                        unsafe { std::ptr::write_bytes(b.user, POISON_FREE, b.size + b.extra) };
                     }
                     if let Some(m) = bad {
                         if e.errors.len() < 16 {
@@ -511,7 +517,7 @@ fn check_canary(b: &Block) -> Option<String> {
     }
     unsafe {
         let before = std::slice::from_raw_parts(b.base, b.pre);
-        let after = std::slice::from_raw_parts(b.base.add(b.pre + b.size), b.rz);
+        let after = std::slice::from_raw_parts(b.base.add(b.pre + b.size + b.extra), b.rz);
         if let Some(i) = before.iter().position(|&x| x != CANARY) {
             return Some(format!(
                 "allocator: write {} bytes BEFORE block of size {} (red zone damaged)",
@@ -551,7 +557,7 @@ pub fn alloc_check_from(from: usize) -> Result<(), String> {
                 return Err(m);
             }
             if !b.live && !b.base.is_null() && b.rz != 0 {
-                let body = unsafe { std::slice::from_raw_parts(b.user, b.size) };
+                let body = unsafe { std::slice::from_raw_parts(b.user, b.size + b.extra) };
                 if let Some(i) = body.iter().position(|&x| x != POISON_FREE) {
                     return Err(format!("allocator: write to freed block (size {}) at offset {}", b.size, i));
                 }
